@@ -25,6 +25,21 @@ impl BusListener {
         }
     }
 
+    #[cfg(feature = "verif-hooks")]
+    pub(crate) fn verif_dump(
+        &self,
+        cookie: aldrin_core::BusListenerCookie,
+    ) -> crate::verif::DumpBusListener {
+        crate::verif::DumpBusListener {
+            cookie,
+            conn: self.conn_id.verif_id(),
+            filters: self.filters.iter().copied().collect(),
+            scope: self.scope,
+            matches_all_objects: self.matches_all_objects,
+            matches_specific_services: self.matches_specific_services,
+        }
+    }
+
     pub(crate) fn conn_id(&self) -> &ConnectionId {
         &self.conn_id
     }
